@@ -123,6 +123,15 @@ func (e *Exec) obligeL(st *State, kind, label string, pos token.Position, goal *
 	}
 	o := &Obligation{Fn: e.RootName, Kind: kind, Label: label, Pos: pos, Props: props, Path: st.PathID}
 	o.Name = fmt.Sprintf("%s#%s:%s", e.RootName, kind, label)
+	if !goal.IsTrue() {
+		// equality propagation: facts `x == constant` of the path condition are substituted into the goal
+		// (switch dispatch makes most goals fold to true without a solver call)
+		if m := constFacts(st.PC); len(m) > 0 {
+			if g2 := e.C.Subst(goal, m); g2.IsTrue() {
+				goal = g2
+			}
+		}
+	}
 	if goal.IsTrue() {
 		o.Trivial = true
 		o.Status = "trivial"
@@ -424,3 +433,39 @@ func (e *Exec) freshSliceObj(st *State, elem types.Type, name string) *SliceVal 
 }
 
 func bigi(v int64) *big.Int { return big.NewInt(v) }
+
+// constFacts collects `var == const` equalities from a path condition.
+func constFacts(pc []*Term) map[*Term]*Term {
+	var m map[*Term]*Term
+	for _, f := range pc {
+		if f.Op == "var" && f.S.IsBool() {
+			if m == nil {
+				m = map[*Term]*Term{}
+			}
+			m[f] = trueTerm
+			continue
+		}
+		if f.Op == "not" && f.Args[0].Op == "var" {
+			if m == nil {
+				m = map[*Term]*Term{}
+			}
+			m[f.Args[0]] = falseTerm
+			continue
+		}
+		if f.Op == "=" && len(f.Args) == 2 {
+			a, b := f.Args[0], f.Args[1]
+			if b.Op == "var" && a.IsConst() {
+				a, b = b, a
+			}
+			if a.Op == "var" && b.IsConst() {
+				if m == nil {
+					m = map[*Term]*Term{}
+				}
+				m[a] = b
+			}
+		}
+	}
+	return m
+}
+
+var trueTerm, falseTerm *Term
